@@ -123,7 +123,8 @@ end Nullable
 
 /-! ### B3: `timestamp_format = UNIX_SECONDS` (key `k`; Go pointer nil or a timestamp)
 
-`rfcOfSecs n` is the RFC 3339 rendering of `time.Unix(n, 0)` (uninterpreted), `rfcFull s n` the
+`rfcOfSecs n` is the RFC 3339 rendering of `time.Unix(n, 0).UTC()` (uninterpreted; in UTC the rendering
+names the instant exactly — in a local zone with a sub-minute mean-time offset it would not), `rfcFull s n` the
 protojson rendering of the timestamp `(s, n)` (uninterpreted). -/
 namespace UnixSeconds
 
@@ -133,7 +134,7 @@ def encEdit (k : Str) (ts : Option (Int × Nat)) (raw : Obj) : Obj :=
   | some (secs, _) => oset k (num (JNum.int secs)) raw
   | none => raw
 
-/-- `UnmarshalJSON` edit: a JSON integer becomes the RFC 3339 string of `time.Unix(n, 0)`. -/
+/-- `UnmarshalJSON` edit: a JSON integer becomes the RFC 3339 string of `time.Unix(n, 0).UTC()`. -/
 def decEdit (rfcOfSecs : Int → Str) (k : Str) (raw : Obj) : Obj :=
   match oget k raw with
   | some (num (JNum.int n)) => oset k (str (rfcOfSecs n)) raw
